@@ -87,7 +87,8 @@ func checkC08(c *Ctx) {
 					continue
 				}
 				failed := func(f Fact) bool {
-					return f.Op == "!=" && oneIsNil(f) && strings.HasSuffix(nonNil(f), "#1") && (strings.Contains(nonNil(f), ".CreateTimeoutCert(") || strings.Contains(nonNil(f), ".CreateAggregateQC("))
+					// (the error of the certificate constructors, or of a sibling rule the work is delegated to)
+					return f.Op == "!=" && oneIsNil(f) && strings.HasSuffix(nonNil(f), "#1") && (strings.Contains(nonNil(f), ".CreateTimeoutCert(") || strings.Contains(nonNil(f), ".CreateAggregateQC(") || strings.Contains(nonNil(f), ".RemoteTimeoutRule("))
 				}
 				ok := branchDominates(frr, r, failed)
 				for f := range frr.At(r) {
